@@ -69,14 +69,15 @@ class App(Application):
         self.response(ack)
 
 
-def device(name, inst):
+def device(name, inst, tseg):
     return LocalDeviceObject(objectName=name, objectIdentifier=("device", inst),
         maxApduLengthAccepted=206, segmentationSupported='segmentedBoth',
-        maxSegmentsAccepted=16, vendorIdentifier=999)
+        maxSegmentsAccepted=16, vendorIdentifier=999, apduSegmentTimeout=tseg)
 
 vlan = LossyNetwork(broadcast_address=LocalBroadcast())
-client = App(device("client", 10), vlan)
-server = App(device("server", 20), vlan)
+# the client is patient (Tseg 6 s) so that the server's retry (Tseg 1.5 s) has a chance to arrive
+client = App(device("client", 10, 6000), vlan)
+server = App(device("server", 20, 1500), vlan)
 payload = "x" * 600
 server.result = Any(CharacterString(payload))
 
@@ -91,7 +92,7 @@ for name, e in logged[:4]:
     print("  %s: %r" % (name, e))
 print("client application received: %r" % [type(a).__name__ for a in client.got])
 for a in client.got:
-    if hasattr(a, 'apduAbortRejectReason'):
+    if getattr(a, 'apduAbortRejectReason', None) is not None:
         print("  abort reason: %r (65 = noResponse, generated locally by the client SSM after its own timeout)" % a.apduAbortRejectReason)
 print("server transactions still registered: %d" % len(server.smap.serverTransactions))
 
